@@ -627,5 +627,5 @@ func TestC06(t *testing.T) {
 		"commit and callback. Oracle: (a) stored blocks were served untampered and read back equal, (b) head moves +1 onto parent or -1, (c) a reverted block is not "+
 		"canonical at the source at that logical time, (d) one new-head notification per store in order, never before the commit, (e) reorg notification = run of reverts "+
 		"since the previous store, (f) after stabilisation head == source tip within 40*(len+50) effective source requests and the final chain equals the source's; "+
-		"evaluations = history events checked; distinct = converged runs with at least one revert, keyed by configuration and outcome shape", 6)
+		"evaluations = history events checked; distinct = converged runs with at least one revert, keyed by configuration and outcome shape", 4)
 }
